@@ -204,12 +204,20 @@ inline bool mutate(std::vector<OutPdu> &r, int mut, int pos, int ver, const std:
 	}
 	case M_SESSION_CR:
 		if (!has_cr) return false;
-		r[0].b[2] ^= 0x40; // Cache Response session differs from End of Data / established
+	{	// Cache Response session differs from End of Data / established: in one bit of either byte, in a whole byte, or completely
+		static const uint16_t X[6] = {0x4000, 0x0001, 0x0100, 0x00ff, 0xff00, 0xffff};
+		uint16_t x = X[(seed >> 2) % 6];
+		r[0].b[2] ^= (uint8_t)(x >> 8); r[0].b[3] ^= (uint8_t)x;
 		return true;
+	}
 	case M_SESSION_EOD:
 		if (r.back().b[1] != wire::EOD) return false;
-		r.back().b[3] ^= 0x01;
+	{
+		static const uint16_t X[6] = {0x0001, 0x4000, 0x0100, 0xff00, 0x00ff, 0xffff};
+		uint16_t x = X[(seed >> 2) % 6];
+		r.back().b[2] ^= (uint8_t)(x >> 8); r.back().b[3] ^= (uint8_t)x;
 		return true;
+	}
 	case M_WRONG_VERSION: {
 		size_t i = (size_t)pos % n;
 		uint8_t nv = (uint8_t)ver_byte;
